@@ -40,9 +40,11 @@ package eval
 //@   inline 8 2
 
 //@ func (*ti/eval.Comma).Evaluation
-//@   requires wfP(p)
+//@   requires wfP(p) && p != nil && e != nil
 //@   eosexit
 //@   inline 8 2
+//@   safe
+//@   witness assert#0 ", 1"
 
 //@ func (*ti/eval.Def).evaluationBody
 //@   requires wfP(p)
